@@ -22,17 +22,22 @@ const (
 // Node is the reference semantic tree: member order and duplicates preserved,
 // numbers kept as their literal (exact value through Rat()).
 type Node struct {
-	Kind Kind
-	B    bool
-	Lit  string // number literal as written
-	S    string // decoded string
-	Arr  []*Node
-	Keys []string
-	Vals []*Node
+	Kind    Kind
+	B       bool
+	Lit     string // number literal as written
+	S       string // decoded string
+	Arr     []*Node
+	Keys    []string
+	Vals    []*Node
+	KeyLone []bool   // key i contained an unpaired surrogate escape
+	KeyAlt  []string // PairAlt of key i
 	// LoneSurrogate is set on strings that contained an unpaired \uD800-\uDFFF
 	// escape (decoded as U+FFFD here; any replacement is accepted by callers).
 	LoneSurrogate bool
-	Off           int // byte offset of the value's first byte
+	// PairAlt is S with every escaped surrogate pair replaced by two U+FFFD (what a
+	// decoder that does not combine pairs produces); empty if S has no escaped pair.
+	PairAlt string
+	Off     int // byte offset of the value's first byte
 }
 
 // Rat returns the exact value of a number node. Exponents are bounded by the
@@ -125,6 +130,8 @@ func (d *decoder) value(depth int) *Node {
 			d.ws()
 			v := d.value(depth + 1)
 			n.Keys = append(n.Keys, k.S)
+			n.KeyLone = append(n.KeyLone, k.LoneSurrogate)
+			n.KeyAlt = append(n.KeyAlt, k.PairAlt)
 			n.Vals = append(n.Vals, v)
 			d.ws()
 			c := d.peek()
@@ -256,12 +263,17 @@ func (d *decoder) str() *Node {
 	d.pos++ // opening quote
 	n := &Node{Kind: Str}
 	var sb []byte
+	var pairAt []int // byte offsets in sb of runes that came from an escaped pair
+	hasPair := false
 	for {
 		b := d.peek()
 		switch {
 		case b == '"':
 			d.pos++
 			n.S = string(sb)
+			if hasPair {
+				n.PairAlt = pairAlt(n.S, pairAt)
+			}
 			return n
 		case b < 0x20:
 			d.fail("control byte in string")
@@ -301,6 +313,8 @@ func (d *decoder) str() *Node {
 						}
 						if ok && 0xDC00 <= r2 && r2 <= 0xDFFF {
 							d.pos += 4
+							pairAt = append(pairAt, len(sb))
+							hasPair = true
 							sb = utf8.AppendRune(sb, utf16.DecodeRune(r, r2))
 							continue
 						}
@@ -360,4 +374,16 @@ func (n *Node) HasDupKeys() bool {
 		}
 	}
 	return false
+}
+
+func pairAlt(s string, at []int) string {
+	var out []byte
+	prev := 0
+	for _, off := range at {
+		out = append(out, s[prev:off]...)
+		out = append(out, "\uFFFD\uFFFD"...)
+		_, sz := utf8.DecodeRuneInString(s[off:])
+		prev = off + sz
+	}
+	return string(append(out, s[prev:]...))
 }
